@@ -34,6 +34,8 @@ fn main() {
             Err(_) => buf.push_str("(1)"),
         }
         writeln!(out, "{}", buf).unwrap();
+        // flush per case: if a later case aborts the process, every finished result has been delivered
+        out.flush().unwrap();
     }
     out.flush().unwrap();
 }
